@@ -189,7 +189,8 @@ class Run:
         lines = []
         known_hits = []
         exit_code = 0
-        os.makedirs(os.path.join(VERIF, "replays"), exist_ok=True)
+        rpdir = os.environ.get("VERIF_REPLAY_DIR") or os.path.join(VERIF, "replays")
+        os.makedirs(rpdir, exist_ok=True)
         for r in self.results:
             if r["status"] == "violated":
                 sig = r.get("signature") or r["name"]
@@ -204,7 +205,7 @@ class Run:
                     continue
                 n_viol += 1
                 slug = re.sub(r"[^A-Za-z0-9_.-]+", "_", r["name"].replace("!=", "ne").replace("==", "eq"))[:120]
-                path = os.path.join(VERIF, "replays", "%s-%s.json" % (self.prop_id, slug))
+                path = os.path.join(rpdir, "%s-%s.json" % (self.prop_id, slug))
                 rec = {"property": self.prop_id, "obligation": r["name"], "kind": r["kind"], "detail": r.get("detail"),
                        "backend": r.get("backend"), "witness": r.get("witness"), "replay": r.get("replay"),
                        "signature": sig}
@@ -278,8 +279,9 @@ class Run:
             "wall_s": round(wall, 2),
             "violations": n_viol,
         }
-        os.makedirs(os.path.join(VERIF, "evidence"), exist_ok=True)
-        with open(os.path.join(VERIF, "evidence", "%s.json" % self.prop_id), "w") as f:
+        evdir = os.environ.get("VERIF_EVIDENCE_DIR") or os.path.join(VERIF, "evidence")
+        os.makedirs(evdir, exist_ok=True)
+        with open(os.path.join(evdir, "%s.json" % self.prop_id), "w") as f:
             json.dump(ev, f, indent=1)
         print("%s %s: %d deductive obligations, %d discharged, %d bounded evaluations (%d held), %d undecided, %d violations, %d known findings, %.1fs -> exit %d"
               % (self.prop_id, self.tier, len(ded), discharged, len(bnd), cov["bounded_held"], n_und, n_viol, len(seen), wall, exit_code))
